@@ -20,6 +20,8 @@
 EXTENDS Bytes
 
 CONSTANT Ord(_)   \* order in which an encoder writes a property list (any order is legal)
+CONSTANT Extra    \* raw bytes appended to every property section the encoder writes (<< >> normally; hostile input: a
+                  \* well-formed property that may not be allowed in that packet type, or repeats one)
 CONSTANT CutAt    \* -1, or: every property section is cut after its first CutAt bytes and announces exactly that
                   \* length (hostile input: the last property loses its value or a part of it, all outer lengths agree)
 
@@ -40,7 +42,7 @@ EncProp(id, v) ==
 
 RECURSIVE EncPropList(_)
 EncPropList(ps) == IF ps = << >> THEN << >> ELSE EncProp(Head(ps)[1], Head(ps)[2]) \o EncPropList(Tail(ps))
-EncProps(ps) == LET full == EncPropList(Ord(ps))
+EncProps(ps) == LET full == EncPropList(Ord(ps)) \o Extra
                     body == IF CutAt >= 0 /\ CutAt < Len(full) THEN SubSeq(full, 1, CutAt) ELSE full
                 IN VarEnc(Len(body)) \o body
 
